@@ -1186,6 +1186,25 @@ theorem recurrence_rate_num_all_modes (rnd : Rat → Rat) (h0 : rnd 0 = 0) (emb 
       rw [seqX_vertline_eq_matrix rnd h0, gen_vertline_eq, vert_accounts_black, countIn_rowsOf,
         ← matSum_mv_eq_complete rnd h0]
 
+/-- **accounting at the level of the methods**: in either storage mode `Σ l·P_v(l)` of
+`vertline_dist()` plus `Σ l·P_w(l)` of `white_vertline_dist()` (matrix mode) is `N²` — every
+recurrence point and every non-recurrence point lies on exactly one counted line -/
+theorem methods_account_all (rnd : Rat → Rat) (h0 : rnd 0 = 0) (emb : List (List X)) (eps : X)
+    (dim : Nat) (sparse : Bool) :
+    ∃ w, whiteVertlineMethod rnd ⟨emb, eps, dim, false, false⟩ = some w ∧
+      wsum (vertlineMethod rnd ⟨emb, eps, dim, false, sparse⟩) + wsum w
+        = emb.length * emb.length := by
+  refine ⟨_, rfl, ?_⟩
+  have hv : vertlineMethod rnd ⟨emb, eps, dim, false, sparse⟩
+      = vertlineMethod rnd ⟨emb, eps, dim, false, false⟩ := by
+    cases sparse
+    · rfl
+    · exact vertline_method_sparse_eq_matrix rnd h0 emb eps dim false
+  rw [hv]
+  simp only [vertlineMethod, RP.R, zeroHist, Bool.not_false, if_true, Bool.false_eq_true, if_false]
+  rw [gen_vertline_eq, gen_white_eq]
+  exact vert_white_account_all _ _
+
 /-- non-vacuity: a 5-sample series with a NaN and an infinite sample; the modes -/
 example :
     diaglineMethod id ⟨[[.fin 0], [.nan], [.fin (1/2)], [.fin 1], [.pinf]], .fin 1, 1, false, true⟩
